@@ -60,7 +60,8 @@ GConstr == /\ Len(hist) <= MaxOps /\ lastTx <= MaxTx /\ lastBatch <= MaxBatch /\
            /\ \A d \in Denoms : deposited[d] <= 2
 \* cover mode: TLC evaluates invariants on every generated successor (before the fingerprint check),
 \* but evaluates the next-state relation once per distinct (dequeued) state: emit from there.
-EmitCond == Len(hist) >= 3 /\ (res \in {"eb", "fail"} \/ Family # "funds")
+EmitCond == /\ Len(hist) >= 3 /\ (res \in {"eb", "fail"} \/ Family # "funds")
+            /\ (Family = "limits" => hist[Len(hist)].act = "Send")      \* limits are decided when a transfer is sent
 GNextC == (IF EmitCond THEN PrintT(<<"HIST", ToJson(hist)>>) ELSE TRUE) /\ GNext
 Emit == Len(hist) = EmitAt => PrintT(<<"HIST", ToJson(hist)>>)
 =============================================================================
